@@ -25,9 +25,12 @@ def runFlipW (c : Case) : Res :=
       let mut bad : List String := []
       let mut n := 0
       let mut kinds : List String := []
-      for r in c.recsOf "st" do
-        match r with
-        | [name, rS, iS, postS] =>
+      -- records in order: `st` = one modelled step, `rs` = restart from a reported cell set (after
+      -- an inverse k = 1 move, whose removed vertex the harness can no longer name)
+      for r0 in c.recs do
+        match r0 with
+        | ["rs", postS] => cells := cellsOf postS
+        | ["st", name, rS, iS, postS] =>
           n := n + 1
           if !kinds.contains name then kinds := name :: kinds
           let R := numsOf rS
@@ -41,7 +44,8 @@ def runFlipW (c : Case) : Res :=
             else if !sameSets (flipCells cells R I) post then
               bad := s!"step {n} ({name}): cells after the flip differ from the bistellar move R={R} I={I} applied to the previous cells" :: bad
           cells := post
-        | _ => bad := "malformed st record" :: bad
+        | "st" :: _ => bad := "malformed st record" :: bad
+        | _ => pure ()
       for (nm, v) in c.obs do
         if nm == "refused_changed" && v.headD "0" != "0" then
           bad := s!"{v.headD ""} refused flips changed the triangulation" :: bad
